@@ -375,9 +375,28 @@ theorem lowerE_mono : ∀ (e : Expr) (c : Nat) (code : Code) (v : Value) (c' : N
     have m6 := lowerArms_mono arms _ _ codes c' h6
     exact ⟨by omega, ⟨c3, rfl, by omega⟩⟩
   | .for .., _, _, _, _, h => by simp [lowerE] at h
-  | .ctor .., _, _, _, _, h => by simp [lowerE] at h
+  | .ctor k args, c, code, v, c', h => by
+    simp [lowerE, Option.bind_eq_some_iff] at h
+    obtain ⟨ca, xs, c1, h1, _, rfl, rfl⟩ := h
+    have ⟨m1, _⟩ := lowerCtorArgs_mono args c ca xs c1 h1
+    exact ⟨by omega, ⟨c1, rfl, by omega⟩⟩
   | .list .., _, _, _, _, h => by simp [lowerE] at h
   | .fstr .., _, _, _, _, h => by simp [lowerE] at h
+theorem lowerCtorArgs_mono : ∀ (es : Exprs) (c : Nat) (code : Code) (xs : List Var) (c' : Nat),
+    lowerCtorArgs es c = some (code, xs, c') → c ≤ c' ∧ ∀ x ∈ xs, ∃ k, x = .t k ∧ k < c'
+  | .nil, c, code, xs, c', h => by simp [lowerCtorArgs] at h; obtain ⟨_, rfl, rfl⟩ := h; simp
+  | .cons e es, c, code, xs, c', h => by
+    simp [lowerCtorArgs, Option.bind_eq_some_iff] at h
+    obtain ⟨ce, ve, c1, h1, cs, xs', c2, h2, _, rfl, rfl⟩ := h
+    have ⟨m1, b1⟩ := lowerE_mono e c ce ve c1 h1
+    have ⟨a1, k1, hk1, hk1'⟩ := atv_spec ve c1 b1
+    have ⟨m2, hxs⟩ := lowerCtorArgs_mono es _ cs xs' c2 h2
+    refine ⟨by omega, ?_⟩
+    intro x hx
+    simp at hx
+    rcases hx with rfl | hx
+    · exact ⟨k1, hk1, by omega⟩
+    · exact hxs x hx
 theorem lowerChain_mono : ∀ (arms : Arms) (sel : Sel) (xe : Var) (tb idx c : Nat) (steps : List GStep) (c' : Nat),
     lowerChain arms sel xe tb idx c = some (steps, c') → c ≤ c'
   | .nil, sel, xe, tb, idx, c, steps, c', h => by simp [lowerChain] at h; omega
@@ -609,7 +628,11 @@ theorem lowerE_valueBound (e : Expr) (c : Nat) (code : Code) (v : Value) (c' : N
     obtain ⟨_, _, _, _, _, _, _, _, _, _, _, _, _, _, _, _, _, _, _, _, rfl⟩ := lowerE_mtch_inv h
     obtain ⟨k', hk', hlt⟩ := hm; cases hk'; simp [Value.vars] at hk; omega
   | «for» x l b => simp [lowerE] at h
-  | ctor k args => simp [lowerE] at h
+  | ctor k' args =>
+    have hm := (lowerE_mono _ c code v c' h).2
+    simp [lowerE, Option.bind_eq_some_iff] at h
+    obtain ⟨_, _, _, _, _, rfl, _⟩ := h
+    obtain ⟨k'', hk', hlt⟩ := hm; cases hk'; simp [Value.vars] at hk; omega
   | record fs =>
     have hm := (lowerE_mono _ c code v c' h).2
     simp [lowerE, Option.bind_eq_some_iff] at h
@@ -710,5 +733,36 @@ theorem not_hasWild : ∀ (arms : Arms), hasWild arms = false → Pat.wild ∉ p
     cases p with
     | wild => simp [hasWild] at h
     | variant k bs => simp [hasWild] at h; simp [patsOf]; exact not_hasWild rest h
+
+/-! ### `make_enum`: moving the materialised arguments into the fields -/
+
+theorem exec_storeFields {k : Nat} {to : Var} : ∀ (xs : List Var) (fs : List Int) (pre : List Int) (σ : Store),
+    σ to = .enm k (pre ++ List.replicate xs.length 0) → (∀ x ∈ xs, x ≠ to) → xs.map σ = fs.map Val.int →
+    ∃ σ1, ExecC σ (storeFields to pre.length xs) [] (.normal σ1) ∧ σ1 to = .enm k (pre ++ fs)
+      ∧ (∀ y, y ≠ to → σ1 y = σ y)
+  | [], fs, pre, σ, hσ, _, hm => by
+    cases fs with
+    | nil => exact ⟨σ, .nil, by simpa using hσ, fun _ _ => rfl⟩
+    | cons f fs => simp at hm
+  | x :: xs, fs, pre, σ, hσ, hne, hm => by
+    cases fs with
+    | nil => simp at hm
+    | cons f fs =>
+      simp only [List.map_cons, List.cons.injEq] at hm
+      obtain ⟨hx, hm'⟩ := hm
+      have hset : setPayload (σ to) pre.length f = some (.enm k (pre ++ f :: List.replicate xs.length 0)) := by
+        rw [hσ]; simp [setPayload, List.replicate_succ]
+      have s1 : ExecS σ (.assignField to pre.length (.move x)) [] (.normal (σ.set to (.enm k (pre ++ f :: List.replicate xs.length 0)))) :=
+        .assignField (by simp [evalValue, hx]) hset
+      have hmap : xs.map (σ.set to (.enm k (pre ++ f :: List.replicate xs.length 0))) = fs.map Val.int := by
+        rw [← hm']
+        apply List.map_congr_left
+        intro y hy
+        exact set_other _ _ (hne y (by simp [hy]))
+      obtain ⟨σ1, hx1, hv1, hk1⟩ := exec_storeFields (k := k) (to := to) xs fs (pre ++ [f]) (σ.set to (.enm k (pre ++ f :: List.replicate xs.length 0)))
+        (by simp) (fun y hy => hne y (by simp [hy])) hmap
+      refine ⟨σ1, ?_, by simpa using hv1, fun y hy => by rw [hk1 y hy, set_other _ _ hy]⟩
+      have := ExecC.cons s1 hx1
+      simpa [storeFields] using this
 
 end RotoV.LowerS
